@@ -12,3 +12,7 @@ pub mod stubs;
 mod c19_tags;
 #[cfg(kani)]
 mod c02_patch_archive;
+#[cfg(kani)]
+mod c07_archive_footer;
+#[cfg(kani)]
+mod c03_root_entry;
